@@ -121,8 +121,8 @@ theorem retry_fires (s : St) (k e : Nat) (r : Rec) (hK : KInv s) (hk : s.key k =
     start_force_spec (setRec s k (some { r with deferRetry := none })) k { r with deferRetry := none } y1 hy1
   refine ⟨start (setRec s k (some { r with deferRetry := none })) k { r with deferRetry := none } true,
     r', y1.insts.length, y', x, ?_, h1, h2, h4, ?_, h6, h7, h8⟩
-  · have hc' : (setRec s k (some { r with deferRetry := none })).ctx = some c := hc
-    simp [step, hk, dueOpt, hd, he, hex, startKey, hc']
+  · have hctx' : ∀ v, (setRec s k v).ctx = some c := fun _ => hc
+    simp [step, hk, dueOpt, hd, he, hex, startKey, hctx']
   · rw [h3]; exact h5
 
 end UtilModel.Keyed
